@@ -102,6 +102,9 @@ FIXED = [
     ("C18", "fa38b4a", "glexindex/bindex/monomial returned the indices below start (xor of the two truncation sets) when the lower set was not inside the upper one"),
     ("C19", "6e5ea68", "tonumpy raised ValueError for a constant polynomial that has no explicit constant row (all stored terms zero)"),
     ("C19", "faec1d6", "set_dimensions dropping every term returned an unwritten 0-d polynomial"),
+    ("C02", "958beb8", "evaluation with a Python int argument: OverflowError for negative values ((q0**2)(-1)), silent uint32 wrap for large ones ((q0**2)(2**17) == 0)"),
+    ("C06", "c9c09e7", "hessian had shape (D', D) + p.shape with D' < D when retain_names is off"),
+    ("C06", "6cbef29", "derivative stored terms free of the variable with exponent 2**32-1 (storage key code point 58) under retain_coefficients=True"),
     ("C03", "64ca5a4", "monomial over an empty index range in D > 1 dimensions returned an object whose storage key width (1) did not match its D names"),
 ]
 
